@@ -246,8 +246,13 @@ func (g *gen) bodyType(depth int) *Att {
 	case k < 6:
 		el := g.named(g.bodyType(depth - 1))
 		a := &Att{Type: &Type{Array: el}}
-		if r.Intn(3) == 0 {
+		switch r.Intn(6) {
+		case 0:
 			a.Val = &Validation{MinLen: ip(r.Intn(2)), MaxLen: ip(2 + r.Intn(3))}
+		case 1:
+			a.Val = &Validation{MaxLen: ip(1 + r.Intn(2))}
+		case 2:
+			a.Val = &Validation{MinLen: ip(1 + r.Intn(3))}
 		}
 		return a
 	case k < 7:
